@@ -161,12 +161,13 @@ let jstr s = "\"" ^ s ^ "\""
 let jlist l = "[" ^ String.concat "," l ^ "]"
 
 let rerr_json (e : rerr) : String.t =
-  Printf.sprintf "{\"fmt\":%s,\"args\":%s,\"suffix\":%s,\"file\":%s,\"index\":%d,\"line\":%d,\"col\":%d,\"trace\":%s}"
+  Printf.sprintf "{\"fmt\":%s,\"args\":%s,\"suffix\":%s,\"file\":%s,\"index\":%d,\"line\":%d,\"col\":%d,\"quote\":%s,\"trace\":%s}"
     (jstr (hexc e.re_fmt))
     (jlist (List.map (fun a -> jstr (hex_of_bytes a)) e.re_args))
     (jlist (List.map (fun l -> jlist [jstr (hex_of_bytes l.rl_name); string_of_int (int_of_z l.rl_line)]) e.re_suffix))
     (jstr (hex_of_bytes e.re_loc.rl_name)) (int_of_z e.re_loc.rl_index) (int_of_z e.re_loc.rl_line)
     (int_of_z e.re_loc.rl_col)
+    (match e.re_loc.rl_quote with Some q -> jstr (hex_of_bytes q) | None -> "null")
     (jlist (List.map (fun l -> jlist [jstr (hex_of_bytes l.rl_name); string_of_int (int_of_z l.rl_line)]) e.re_trace))
 
 let cpanic_name = function
